@@ -35,9 +35,11 @@ class LimitMonitor:
         self.held: dict[str, int] = {}
         self.by_job: dict[str, dict] = {}
         self.scheds: list = []
-        self.max_ratio = 0.0
+        self.unreturnable: dict[str, int] = {}
+        self.w = None
 
     def attach(self, w, rec, sched) -> None:
+        self.w = w
         self.scheds.append(sched)
         rec.callbacks.setdefault("submit", []).append(self.on_submit)
         rec.callbacks.setdefault("report", []).append(self.on_report)
@@ -64,6 +66,10 @@ class LimitMonitor:
         if units:
             for name, n in units.items():
                 self.held[name] -= n
+                if self.w.in_shutdown:
+                    # reported while the pools shut down, after run() stopped processing events:
+                    # the scheduler can no longer return these units in this execution
+                    self.unreturnable[name] = self.unreturnable.get(name, 0) + n
 
     def after_event(self) -> None:
         for sched in self.scheds:
@@ -98,14 +104,14 @@ class C08(EngineACheck):
                 sched, rec, w = res.scheduler, res.rec, res.world
                 schedsim.close_backend(res.backend)
                 self.fill(out, w, prog, extra_key=str(ex))
-                self.check_run(out, res, ex)
+                self.check_run(out, res, ex, mon)
                 if res.outcome[0] == "abort":
                     out.probe("aborted_runs")
                     break
         out.sample = self.sample(prog, w, res)
         return out
 
-    def check_run(self, out: RunOutcome, res, ex: int) -> None:
+    def check_run(self, out: RunOutcome, res, ex: int, mon: "LimitMonitor") -> None:
         sched, rec = res.scheduler, res.rec
         returned = res.outcome[0] == "v"
         for jid in rec.order:
@@ -142,10 +148,16 @@ class C08(EngineACheck):
                 out.violate("C08.release_once", "settled-job-never-released",
                             {"task": r.task, "consumed": r.consumed})
         if returned:
+            # Units may only still be held by jobs that were handed to an executor and have not
+            # reported yet (an unjoined fork_thread can outlive run()); everything else must
+            # have been returned.
+            still_held = {k: v for k, v in mon.unreturnable.items() if v}
             left = {k: v for k, v in sched.limits_used.items() if v != 0}
-            if left:
-                out.violate("C08.zero_at_end", "limits_used-nonzero-after-successful-run",
-                            {"limits_used": left})
+            if left != still_held:
+                out.violate("C08.zero_at_end", "limits_used-differs-from-units-of-unreported-jobs",
+                            {"limits_used": left, "held_by_unreported_jobs": still_held})
+            if still_held:
+                out.probe("runs_returning_with_unjoined_jobs_in_flight")
             if sched._jobs_pending_limits:
                 out.violate("C08.zero_at_end", "jobs-still-pending-limits",
                             {"n": len(sched._jobs_pending_limits)})
